@@ -171,6 +171,11 @@ void e1_run(const e1_cfg *c, e1_stats *out) {
             uint64_t th = vf_trace_hash();
             vf_outcome(th);
             out->out_hash = vf_hash64(&th, 8, out->out_hash);
+            if (c->compare_outhash) {
+                uint64_t idx = out->transitions - 1;
+                if (idx >= c->compare_n || c->compare_outhash[idx] != th)
+                    vf_violation("output-depends-on-uninitialised-memory", "transition %llu transmits different bytes (or the state graph differs) when fresh allocations are filled with 0x%02x instead of the first run's pattern", (unsigned long long)idx, W.fill);
+            }
             if (c->record_outhash) {
                 if (e1_outhash_n == outhash_cap) { outhash_cap = outhash_cap ? outhash_cap * 2 : 65536; e1_outhash = realloc(e1_outhash, outhash_cap * 8); }
                 e1_outhash[e1_outhash_n++] = th;
